@@ -51,10 +51,14 @@ THEOREMS_C19_PRICES = [
      'a column that has a defined value at every grid instant comes back with exactly these values, whatever other instants (defined or not) the input has'),
     (M, 'EAO.C19P.gridded_passthrough_array',
      'an array / numeric-index frame of the grid\'s length without undefined entries comes back unchanged; any other length (with at least one column) is the error class length'),
+    (M, 'EAO.C19P.passthrough_models_agree',
+     'the earlier model of the gridded case (pricesPassThrough, EAO.C19.gridded_passthrough) is the special case one array without undefined entry of this model: same acceptance, same result, same error class'),
     (M, 'EAO.C19P.gridded_passthrough_frame',
      'a frame with a sorted datetime index of the grid\'s kind: every column that is defined at all grid instants comes back with its values at these instants'),
     (M, 'EAO.C19P.interp_linear',
      'between two neighbouring defined rows (a,v), (b,w) the entry at a grid instant p, a <= p <= b, is (w-v)/(b-a)*(p-a)+v'),
+    (M, 'EAO.C19P.interp_linear\'',
+     'the same entry in the usual form v + (w-v)*(p-a)/(b-a)'),
     (M, 'EAO.C19P.interp_between',
      'that entry lies between min(v,w) and max(v,w), equals v at p = a and w at p = b'),
     (M, 'EAO.C19P.interp_const_outside',
@@ -367,6 +371,34 @@ def exact_share(case, rec, model):
                 tot += 1
                 ex += int(x == Fraction(y))
     return ex, tot
+
+
+def interp_check(rec, drv):
+    """the model's `npInterp` against numpy's `np.interp` itself (the function pandas calls), on the defined rows of the first
+    column and the grid instants plus the instants of the rows (knots included), positions in nanoseconds as pandas passes them"""
+    fr = rec['frame']
+    if 'err' in fr or not fr['cols'] or 'numeric' in fr['index']:
+        return []
+    index = fr['index']['instants']
+    if len(set(index)) != len(index):
+        return []
+    known = sorted((t, v) for t, v in zip(index, fr['cols'][0][1]) if v is not None)
+    if not known:
+        return []
+    xs = sorted(set(rec['pts']) | set(index))
+    ans = drv.ask({'op': 'prices_interp', 'known': [[t, fs(v)] for t, v in known], 'x': xs})
+    if 'ok' not in ans:
+        return ['driver: %s' % ans.get('err')]
+    got = np.interp(np.array(xs, dtype=np.int64) * 10 ** 9, np.array([t for t, _ in known], dtype=np.int64) * 10 ** 9,
+                    np.array([float(v) for _, v in known]))
+    ts = {t for t, _ in known}
+    scale = max([1] + [abs(v) for _, v in known])
+    for x, a, b in zip(xs, got, ans['ok']):
+        a, b = Fraction(float(a)), Fraction(b)
+        inner = known[0][0] < x < known[-1][0] and x not in ts
+        if a != b and (not inner or abs(a - b) > Fraction(TOL) * scale):
+            return ['np.interp at %d: numpy %r, model %s' % (x, float(a), b)]
+    return []
 
 
 # ------------------------------------------------------------------ oracles on the real code alone
@@ -711,6 +743,8 @@ def run_case(case, drv):
     r['features'] = features(case, rec, model)
     for d in compare(case, rec, model):
         r['disagreements'].append({'component': 'prices', 'detail': d})
+    for d in interp_check(rec, drv):
+        r['disagreements'].append({'component': 'prices.np_interp', 'detail': d})
     r['exact'] = exact_share(case, rec, model)
     r['violations'] = oracle(case, rec)
     r['nontrivial'] = 'cols' in rec['result'] and any(any(v is not None for v in vs) for _, vs in rec['result']['cols'])
